@@ -132,6 +132,17 @@ def _expand(ch, draws, cov) -> bool:
     except Exception as e:
         raise AssertionError("expand_tree(%r) raised %s: %s" % (str(t), type(e).__name__, str(e)[:100]))
     check_completion(t, r, ("coverage " if cov else "") + "expand_tree(%r)" % str(t))
+    # the same input with sibling nodes of equal label sharing one id (what replace_path produces for an instantiated
+    # copy of a template next to the template)
+    t2 = vlib.share_sibling_ids(t)
+    if t2 is not None:
+        try:
+            r2 = with_stream(draws, lambda: fz.expand_tree(t2))
+        except vlib.IgnoreAttempt:
+            raise
+        except Exception as e:
+            raise AssertionError("expand_tree(%r, siblings sharing an id) raised %s: %s" % (str(t), type(e).__name__, str(e)[:100]))
+        check_completion(t2, r2, ("coverage " if cov else "") + "expand_tree(%r, siblings sharing an id)" % str(t))
     return True
 
 
@@ -172,8 +183,24 @@ def h_expand_coverage(ch: List[int]) -> bool:
     return vlib.untraced(_all_streams, _expand, [int(c) for c in vlib.realize(ch)], True)
 
 
+def _roots(t):
+    """the tree itself and, for every other nonterminal label, its first inner subtree (inputs need not be rooted at <start>)"""
+    out, seen = [t], {t.value}
+    for _, n in nodes(t):
+        if n.children and n.value not in seen:
+            seen.add(n.value)
+            out.append(n)
+    return out
+
+
 def _mutate(ch, draws, which) -> bool:
-    t = vlib.mk_tree(vlib.decode_tree(G, "<start>", ch, allow_open=False))
+    t0 = vlib.mk_tree(vlib.decode_tree(G, "<start>", ch, allow_open=False))
+    for t in _roots(t0):
+        _mutate_one(t, draws, which)
+    return True
+
+
+def _mutate_one(t, draws, which) -> bool:
     m = Mutator(G)
     fn = {0: m.replace_subtree_randomly, 1: m.generalize_subtree}[which]
     try:
